@@ -34,8 +34,11 @@ def wide_component(rng, name):
     else:
         vp = VaporPressureConstants(a=rng.uniform(4.0, 10.0), b=rng.uniform(-3000.0, -800.0), c=rng.uniform(-120.0, 20.0))
     sc = rng.choice([1.0, 1.0, 10.0, 0.01])
-    hc = HeatCapacityConstants(a=rng.uniform(-300.0, 300.0) * sc, b=rng.uniform(-2.0, 2.0) * sc,
-                               c=rng.uniform(-1e-2, 1e-2) * sc, d=rng.choice([0.0, rng.uniform(-1e-5, 1e-5) * sc]))
+    z = lambda v: 0.0 if rng.random() < 0.12 else v          # any coefficient may be exactly zero (also the constant term)
+    hc = HeatCapacityConstants(a=z(rng.uniform(-300.0, 300.0) * sc), b=z(rng.uniform(-2.0, 2.0) * sc),
+                               c=z(rng.uniform(-1e-2, 1e-2) * sc), d=rng.choice([0.0, rng.uniform(-1e-5, 1e-5) * sc]))
+    if rng.random() < 0.1:
+        vp = VaporPressureConstants(a=vp.a, b=vp.b, c=0.0, type=vp.type)      # ... and so may the third vapour-pressure constant
     return pv.Component(name=name, molecular_weight=rng.uniform(10, 300), vapour_pressure_constants=vp,
                         heat_capacity_constants=hc)
 
